@@ -52,7 +52,7 @@ func (check) Assumptions() []string {
 		"workload (h): text nested up to 3*2^20 deep is executed in a probe process (this binary started again, taken over by an init function of this package before main) with the same limits as a worker (64 MiB goroutine stack, 4 GiB address space); a probe that dies is a violation signed from the runtime's own report on its stderr, one that does not return within 15 s is signed hang:deep-nesting:<kind of text>; the in-process workloads stay at or below 10000 levels",
 		"step budget: 4000 reference resolutions per call (plus 10 per path segment of the name argument); the configs read under VarExp have at most a few dozen settings (deep documents hold at most one reference per 1000 levels)",
 		"workload (e): which of two map keys (map presentations, loaded documents) the library meets first is Go's map order and not under the check's control - both insertion orders are sent; the struct presentations (field order) are the deterministic carriers of the visiting order",
-		"the lexer emits its exit event before it closes its channel and parseSplice drains until close, so start==exit after every call is deterministic",
+		"lexer conservation: start==exit is expected the moment a call returns (the exit event is emitted before the channel closes and parseSplice drains until close); an exit event arriving within ~180 ms after the return is accepted (the place of the hook is not part of the claim), only a deficit that stays is a leak",
 	}
 }
 
@@ -295,6 +295,18 @@ func (m *mon) do(c call, f func()) (st status) {
 		m.maxSteps = m.steps
 	}
 	s1, e1 := atomic.LoadInt64(&m.starts), atomic.LoadInt64(&m.exits)
+	// Where exactly the lexer emits its exit event is not part of the claim:
+	// if the call returned before the event (a call site moved behind the
+	// closing of the channels), the goroutine is given time to get there.
+	// Only a deficit that STAYS is a leak.
+	for try := 0; s1-s0 > e1-e0 && try < 60; try++ {
+		runtime.Gosched()
+		time.Sleep(time.Duration(try) * 100 * time.Microsecond)
+		e1 = atomic.LoadInt64(&m.exits)
+		if s1-s0 <= e1-e0 {
+			m.res.Ev("lexer_exit_event_after_return_of_the_call", 1)
+		}
+	}
 	if s1-s0 > e1-e0 {
 		m.res.Ev("lexer_conservation_failures", 1)
 		m.res.Violate("goroutine-leak:lexer", "%s returned while %d lexer goroutine(s) started by it had not finished (started %d, finished %d); input: %s",
